@@ -72,11 +72,16 @@ CLAIMS["C15"] = ("the three recycle functions of the SyncWrapper-based managers 
             "before anything else for every recycling method, exactly the configured check is issued, ping failure => error; a failed interaction is rejected. With C04 (unit mg) a recycle error means: discarded, detached once, replaced.",
             "DESIGN.md 5/C15", "PARTIAL by nature: that a panicking closure poisons the mutex is std's behaviour (trusted, the ghost flag `poisoned`); thread placement and cancellation of a running closure are C14 (not applicable); the backends' truthfulness is external. SyncWrapper::interact itself is modelled, not extracted. ")
 
+CLAIMS["C16"] = ("postgres unit (real bodies): RecyclingMethod::query is the documented check per method; Manager::recycle rejects a closed connection without a query and otherwise issues exactly that check (ghost log of what is sent on the connection); "
+            "StatementCache: key = (query text, parameter types) - both components - for get/insert/remove, size() = number of cached keys (cache invariant), prepare_typed: a hit returns the cached statement with NO message sent on the connection, a miss sends exactly one "
+            "prepare on the passed connection and stores the result under the same key, a failure caches nothing; StatementCaches::attach adds exactly the cache, detach removes exactly the entries of that cache (Vec::retain expanded to its loop, invariant); "
+            "Manager::create registers the new client's cache, Manager::detach unregisters it. With C09's detach-exactly-once this gives registry = caches of owned clients.",
+            "DESIGN.md 5/C16", "NOT covered: StatementCaches::clear/remove (they reach caches through Weak::upgrade: no heap model), ClientWrapper::prepare_cached* (one-line forwards needing &self->&mut), that a statement is valid on the server, server-side failures. The text of the clean-up script is a constant of /repo and is not checked. HashMap with a lawful derived Hash/Eq, Cow as its contents and Deref forwarding of ClientWrapper are modelled (trusted). ")
+
 NOT_APPLICABLE = {
     "C14": "thread placement, ordering of a destructor after a still-running cancelled closure, and mutex poisoning are not expressible as contracts: Verus has no notion of OS-thread identity, unwinding or poisoning, Kani has no threads; a syntactic scope fact would misrepresent the property (DESIGN.md 5/C14)",
 }
 PENDING = {
-    "C16": "check not built yet (postgres manager / statement cache unit is next in the build order)",
 }
 
 def main():
